@@ -59,7 +59,7 @@ out = ["# Seeded changes x checks", "",
        "what two scripts printed on scratch worktrees of `/repo`: `tools/seed_confirm.sh` (the patch applies, the 388",
        "tests pass with it, the demo fails with it and passes without it; all 440 re-run on `/repo` HEAD c96b849) and `tools/seed_run.sh`",
        "(quick check of the seed's own property against HEAD + patch; run from a committed snapshot of `/verif`).  The check runs are not",
-       "all of the same age: rounds 10-11 were run with the final harness (6ba38da) against c96b849; of rounds 1-9, the seeds C01a-C04f,",
+       "all of the same age: rounds 10-11 were run with the harness of the last evening (6ba38da or later; a few rows of the heaviest checks are from the run made when the seed was imported or re-tested) against c96b849; of rounds 1-9, the seeds C01a-C04f,",
        "C06a-C06r, C11a-C14d and C16a-C16m were re-run with harness ec12f3e against c96b849, the others were last run with harness 9b7514e (a-p) /",
        "0437266 (q, r) against `/repo` b4c4a7a -- re-running all 440 takes longer than the machine was free (later harness commits only add",
        "observations).  What was missed when a round was first run, and what was added because of it, is in DESIGN.md section 8.", "",
